@@ -264,6 +264,21 @@ func c07HostCIDR(ip net.IP) string {
 	return ip.String() + "/128"
 }
 
+// c07NarrowWide returns two networks with the same base address: wide holds ip, narrow does not.
+func c07NarrowWide(ip net.IP) (narrow, wide string, ok bool) {
+	wbits, nbits, total := 24, 30, 32
+	b := ip.To4()
+	if b == nil {
+		b, wbits, nbits, total = ip.To16(), 64, 126, 128
+	}
+	base := b.Mask(net.CIDRMask(wbits, total))
+	n := &net.IPNet{IP: base, Mask: net.CIDRMask(nbits, total)}
+	if n.Contains(ip) {
+		return "", "", false
+	}
+	return n.String(), (&net.IPNet{IP: base, Mask: net.CIDRMask(wbits, total)}).String(), true
+}
+
 func c07Twins(c c07Case, exp c07Expect) []c07Twin {
 	var out []c07Twin
 	add := func(name string, fam int, mut func(d *c07Case)) {
@@ -283,6 +298,8 @@ func c07Twins(c c07Case, exp c07Expect) []c07Twin {
 		i, f := i, f
 		add("secret-absent", i, func(d *c07Case) { d.Msg.HasSecret, d.Msg.Secret = false, nil })
 		add("secret-empty", i, func(d *c07Case) { d.Msg.HasSecret, d.Msg.Secret = true, vh.Hex{} })
+		add("secret-7-bytes", i, func(d *c07Case) { d.Msg.Secret = append(vh.Hex{}, c.Msg.Secret[:c07MinSecret-1]...) })
+		add("secret-4-bytes", i, func(d *c07Case) { d.Msg.Secret = append(vh.Hex{}, c.Msg.Secret[:4]...) })
 		add("payload-absent", i, func(d *c07Case) { d.Msg.HasPayload = false })
 		add("transport-disabled-on-station", i, func(d *c07Case) {
 			var keep []int
@@ -329,6 +346,12 @@ func c07Twins(c c07Case, exp c07Expect) []c07Twin {
 		}
 		if f.Phantom.To16() != nil { // (a registrar-assigned "address" of the wrong length cannot be put on a blocklist)
 			add(blk, i, func(d *c07Case) { d.Conf.PhantomBlocklist = append(d.Conf.PhantomBlocklist, c07HostCIDR(f.Phantom)) })
+			// the list is a list: a wider network that holds the phantom, listed after / before a
+			// narrower one with the same base address that does not
+			if narrow, wide, ok := c07NarrowWide(f.Phantom); ok {
+				add("phantom-blocklisted-narrow-then-wide", i, func(d *c07Case) { d.Conf.PhantomBlocklist = append(d.Conf.PhantomBlocklist, narrow, wide) })
+				add("phantom-blocklisted-wide-then-narrow", i, func(d *c07Case) { d.Conf.PhantomBlocklist = append([]string{wide, narrow}, d.Conf.PhantomBlocklist...) })
+			}
 		}
 		if len(c.Conf.CovertAllowlist) == 0 {
 			add("covert-blocklisted", i, func(d *c07Case) { d.Conf.CovertBlocklist = append(d.Conf.CovertBlocklist, c07HostCIDR(covertIP())) })
@@ -344,7 +367,7 @@ func c07Twins(c c07Case, exp c07Expect) []c07Twin {
 	return out
 }
 
-var c07TwinNames = []string{"secret-absent", "secret-empty", "payload-absent", "transport-disabled-on-station", "transport-never-enabled",
+var c07TwinNames = []string{"secret-absent", "secret-empty", "secret-7-bytes", "secret-4-bytes", "phantom-blocklisted-narrow-then-wide", "phantom-blocklisted-wide-then-narrow", "payload-absent", "transport-disabled-on-station", "transport-never-enabled",
 	"transport-not-in-enum", "transport-absent", "generation-unknown", "generation-absent", "family-disabled-on-station",
 	"family-not-supported-by-client", "family-flag-absent", "registrant-ipv6", "registrant-absent", "phantom-blocklisted",
 	"phantom-blocklisted-detector-source", "covert-blocklisted", "covert-not-allowlisted", "covert-malformed", "covert-absent",
@@ -523,6 +546,9 @@ func c07Require(rec *vh.Rec, grid bool) {
 		"rejected:family-v4-not-enabled", "rejected:family-v6-not-enabled", "rejected:registrant-family", "rejected:phantom-blocklisted",
 		"rejected:covert-policy", "rejected:phantom-live", "probe-sent", "probe-skipped:prescanned", "probe-skipped:ipv6",
 		"shared", "detector-source-not-shared")
+	if grid {
+		rec.Require("secret-length:below-minimum", "secret-length:at-or-above-minimum")
+	}
 	if !grid {
 		rec.Require("domain:quirk", "rejected:incomplete-payload", "delivered-twice", "admitted:registrar-phantom", "shared:dual-stack-twin-suppressed")
 		for _, n := range c07TwinNames {
@@ -597,6 +623,32 @@ func TestVerif_C07_grid(t *testing.T) {
 			t.Fatalf("harness problem: cannot derive the base phantoms: %v", err)
 		}
 		blocklists := [][]string{nil, {c07HostCIDR(bexp.Fam[0].Phantom)}, {c07HostCIDR(bexp.Fam[1].Phantom)}}
+		for _, f := range bexp.Fam {
+			if narrow, wide, ok := c07NarrowWide(f.Phantom); ok {
+				blocklists = append(blocklists, []string{narrow, wide}, []string{wide, narrow})
+			}
+		}
+		// the completeness boundary: every secret length 0..40, both orders of magnitude of source
+		for n := 0; n <= 40; n++ {
+			for _, src := range []int{2, 1} {
+				for _, live := range []string{"notlive", "live"} {
+					idx++
+					if !vh.Mine(idx) {
+						continue
+					}
+					c := c07Clone(base)
+					sec := append(vSecret(4242+tp), vSecret(99)...)
+					c.Msg.Secret = vh.Hex(append([]byte{}, sec[:n]...))
+					c.Msg.Source, c.Live = src, live
+					c07Check(t, rec, e, c, false)
+					if n < c07MinSecret {
+						rec.Class("secret-length:below-minimum")
+					} else {
+						rec.Class("secret-length:at-or-above-minimum")
+					}
+				}
+			}
+		}
 		for _, secret := range []bool{true, false} {
 			for _, tpOn := range []bool{true, false} {
 				for _, gen := range []int64{957, 958} {
